@@ -217,12 +217,18 @@ Definition adj_try (ev : state -> eres * state) (orig : state) (width start : na
 Fixpoint adj_outer (ev : state -> eres * state) (orig : state) (width : nat)
          (starts : list nat) (best : adj_best) : eres * state :=
   match starts with
-  | [] => (RErr (b_err best), b_args best)
+  | [] =>
+    (* the state of the best attempt, with the scope of the caller restored (fix: commit -- before it the window of
+       the failed attempt stayed in place and a help flag to its left was not found any more) *)
+    match set_scope (b_args best) (sc_start orig) (sc_end orig) with
+    | Some fin => (RErr (b_err best), fin)
+    | None => (RPanic P_set_scope, orig)
+    end
   | start :: more =>
     match adj_try ev orig width start best with
     | AReturn v s => (ROk v, s)
     | ANext best' => adj_outer ev orig width more best'
-    | AStop r s => (r, s)
+    | AStop r _ => (r, orig)      (* a panic unwinds: no state is handed back; the model keeps the caller's *)
     end
   end.
 
